@@ -31,6 +31,12 @@ class CallMixin:
             return None
         if isinstance(fn, ast.Attribute):
             recv = self.ev(fn.value, st)
+            if isinstance(recv, VConc) and type(recv.obj).__name__ == "module" and len(node.args) == 1 and isinstance(node.args[0], ast.Starred):
+                # mod.f(*L) with L a list of symbolic length, f a third-party callable: the argument list itself is handed to
+                # the sidecar's assumed contract of f (which must understand VStarArgs, else it rejects the call)
+                v = self.ev(node.args[0].value, st)
+                if isinstance(v, VList) and v.elems is not None and not isinstance(v.length, int) and not node.keywords:
+                    return self.call_method(recv, fn.attr, [VStarArgs(v)], {}, node, st, recv_node=fn.value)
             args = [self.ev(a, st) for a in node.args]
             kwargs = {k.arg: self.ev(k.value, st) for k in node.keywords}
             return self.call_method(recv, fn.attr, args, kwargs, node, st, recv_node=fn.value)
@@ -39,11 +45,6 @@ class CallMixin:
         for a in node.args:
             if isinstance(a, ast.Starred):
                 v = self.ev(a.value, st)
-                if isinstance(v, VList) and v.elems is not None and not isinstance(v.length, int) and isinstance(f, VConc):
-                    # f(*L) with L a list of symbolic length, f a third-party callable: the argument list itself is handed
-                    # to the sidecar's assumed contract of f (which must understand VStarArgs, else it rejects the call)
-                    args.append(VStarArgs(v))
-                    continue
                 if not isinstance(v, VTuple):
                     raise Unsupported("star-args of a non-tuple")
                 args += v.items
@@ -195,8 +196,13 @@ class CallMixin:
                 self.emit(f"call[{_short(node)}]->{qual}.arg-not-None.{p}", st, NOT(env[p].isnone), node, kind="call-pre", guard=list(self.guard))
                 env[p] = env[p].val
         for g_, shp_ in getattr(c, "ghost_params", {}).items():
-            # ghost arguments are taken, by name, from the caller's ghost state (else its variables)
-            if g_ in st.ghost:
+            # ghost arguments are taken, by name, from the caller's ghost state (else its variables); the caller's contract
+            # may instead give the argument as a spec expression: ghost_args = {"<callee>": {"<ghost param>": "<expr>"}}
+            # (needed where the value only exists in the middle of one statement, e.g. a ghost result of a nested call)
+            gexpr_ = getattr(self.cur_contract, "ghost_args", {}).get(qual, {}).get(g_) if not self.spec else None
+            if gexpr_ is not None:
+                env[g_] = self.spec_value(gexpr_, st)
+            elif g_ in st.ghost:
                 env[g_] = st.ghost[g_]
             elif g_ in st.env:
                 env[g_] = st.env[g_]
